@@ -96,8 +96,8 @@ def c02_gen(ctx, intensive):
                                             toks.append(_c02_tok(who, fr(i)))
                                             order.append(('seq', i))
                                         if reads:
-                                            toks.append('R:100000')
-                                    toks += ['R:100000', 'R:100000']
+                                            toks.append('R:2000')
+                                    toks += ['R:2000', 'R:2000']
                                     meta = dict(kind='window/exhaustive/n=%d' % n, n=n, level=level, base=0, closing=closing, k=k,
                                                 payloads=[p.hex() for p in payloads], order=order, deliverers=''.join(w for w, _ in m))
                                     cases.append(('v%d' % cid, c02_case('v%d' % cid, level, 0, toks), meta))
@@ -130,8 +130,8 @@ def c02_gen(ctx, intensive):
             else:
                 toks.append(_c02_tok(w, fr(i))); order.append(('seq', i)); idx += 1
             if rng.random() < 0.3:
-                toks.append('R:%d' % rng.choice([1, 3, 100000]))
-        toks += ['R:100000', 'R:100000']
+                toks.append('R:%d' % rng.choice([1, 3, 2000]))
+        toks += ['R:2000', 'R:2000']
         meta = dict(kind='window/seeded', n=n, level=level, base=base, closing=closing, k=None,
                     payloads=[p.hex() for p in payloads], order=order, deliverers=''.join(w for w, _ in m))
         cases.append(('vs%d' % s, c02_case('vs%d' % s, level, base, toks), meta))
